@@ -13,16 +13,18 @@ def cancelId : Op → Option Nat | .cancel e => some e | _ => none
 /-- without a cancellation nobody gets a context error -/
 theorem step_noctx (s : St) (op : Op) (hop : cancelId op = none)
     (h : ∀ x ∈ s.exs, x.res ≠ some .ctx) : ∀ x ∈ (step s op).exs, x.res ≠ some .ctx := by
+  rw [step_exs]
   cases op with
   | cancel e => simp [cancelId] at hop
   | trunc e => exact h
+  | burn k => exact h
   | timer =>
-    simp only [step, timerOp]
+    simp only [step0, timerOp]
     intro x hx
     repeat' split at hx
     all_goals exact h x hx
   | start e b =>
-    simp only [step, startOp]
+    simp only [step0, startOp]
     intro x hx
     repeat' split at hx
     all_goals
@@ -33,7 +35,7 @@ theorem step_noctx (s : St) (op : Op) (hop : cancelId op = none)
          · exact h x hx
          · simp)
   | _ =>
-    simp only [step, dialOkOp, dialErrOp, replyOp, closeOp, failWaiters]
+    simp only [step0, dialOkOp, dialErrOp, replyOp, closeOp, failWaiters]
     intro x hx
     repeat' split at hx
     all_goals
@@ -56,8 +58,9 @@ theorem run_noctx (s : St) (l : List Op) (hl : ∀ op ∈ l, cancelId op = none)
 theorem step_exists (s : St) (op : Op) (e : Nat) (h : ∃ x ∈ s.exs, x.id = e) :
     ∃ x ∈ (step s op).exs, x.id = e := by
   obtain ⟨x, hx, hid⟩ := h
+  rw [step_exs]
   cases op <;>
-    simp only [step, startOp, dialOkOp, dialErrOp, replyOp, cancelOp, timerOp, closeOp, failWaiters] <;>
+    simp only [step0, startOp, dialOkOp, dialErrOp, replyOp, cancelOp, timerOp, closeOp, failWaiters] <;>
     repeat' split
   all_goals
     first
@@ -70,7 +73,8 @@ theorem step_exists (s : St) (op : Op) (e : Nat) (h : ∃ x ∈ s.exs, x.id = e)
           all_goals exact hid))
 
 theorem start_exists (s : St) (e : Nat) (b : Bool) : ∃ x ∈ (step s (.start e b)).exs, x.id = e := by
-  simp only [step, startOp]
+  rw [step_exs]
+  simp only [step0, startOp]
   split
   · rename_i h
     simp only [St.hasEx, List.any_eq_true, beq_iff_eq] at h
